@@ -75,6 +75,13 @@ func Serve(sockpath, dbpath string, opts ServeOpts) int {
 		logger.Println("aborting")
 		return 2
 	}
+	if ul, ok := listener.(*net.UnixListener); ok {
+		// The socket file is removed explicitly with os.Remove before the
+		// listener is closed. Without this, closing the listener would unlink
+		// the path a second time, and by then the path may hold the socket of
+		// a daemon that has started in the meantime.
+		ul.SetUnlinkOnClose(false)
+	}
 
 	st, err := store.NewStore(dbpath)
 	verifhook.Event("serve.afterOpenDB", "err", err, "db", dbpath)
